@@ -45,12 +45,37 @@ def run_program(ctx, st, prog, tag):
     s = cspuz.Solver()
     vars_ = progs.declare(s, prog["decls"])
     try:
-        for c in prog["constraints"]:
-            s.ensure(progs.build(c, vars_))
+        built = [progs.build(c, vars_) for c in prog["constraints"]]
+        post_in_some_form(ctx, s, built)
     except Exception as e:
         ctx.violation(f"dsl-build-raises:{type(e).__name__}", f"building a well-typed program raised {e!r}", ctx.current_case)
         return
     judge(ctx, st, s, vars_, prog["decls"], prog["constraints"], tag)
+
+
+def post_in_some_form(ctx, s, built):
+    """Solver.ensure accepts any nesting of iterables: post the same constraints one by one, as several arguments, as nested
+    lists / tuples, as a generator or as a BoolArray1D (order is preserved in all forms)."""
+    from cspuz.array import BoolArray1D
+    from cspuz.expr import BoolExpr
+
+    form = ctx.rng.choice(["each", "each", "varargs", "list", "nested", "generator", "array"])
+    if form == "array" and not all(isinstance(b, BoolExpr) for b in built):
+        form = "nested"
+    ctx.count("c01.ensure_form." + form)
+    if form == "each":
+        for b in built:
+            s.ensure(b)
+    elif form == "varargs":
+        s.ensure(*built)
+    elif form == "list":
+        s.ensure(list(built))
+    elif form == "nested":
+        s.ensure([built[:1], (tuple(built[1:2]), [[b] for b in built[2:]])])
+    elif form == "generator":
+        s.ensure(b for b in built)
+    else:
+        s.ensure(BoolArray1D(built))
 
 
 def judge(ctx, st, s, vars_, decls, constraints, tag):
@@ -208,6 +233,7 @@ def run(ctx):
     realistic(ctx, st)
     from .c13 import realistic_stage
 
+    st.smt = False  # the repository's tests post larger programs; model genuineness is still checked on every SAT answer
     realistic_stage(ctx, ctx.tier == "thorough")
     for name, n in st.op_hist.items():
         ctx.count("op." + name, n)
